@@ -289,6 +289,10 @@ def r3_window(repo, rep):
       return ast.Slice(lower=a_[0], upper=a_[1], step=a_[2] if len(a_) > 2 else None)
     return x_
   vx = v
+  if not (isinstance(v, ast.Subscript) and norm(v.value) == '%s.df.iloc' % data):
+    v_full = rd.expand(n, v, keep=(data, par))[0]        # the indexer / the slices named first
+    if isinstance(v_full, ast.Subscript) and norm(v_full.value) == '%s.df.iloc' % data:
+      v = v_full
   if isinstance(v, ast.Subscript) and norm(v.value) == '%s.df.iloc' % data and isinstance(v.slice, ast.Tuple) and len(v.slice.elts) == 2:
     rows, cols = (as_slice(x_) for x_ in v.slice.elts)
     lo_ = rd.expand(n, cols.lower, keep=(data, par))[0] if isinstance(cols, ast.Slice) and cols.lower is not None else None
@@ -301,6 +305,12 @@ def r3_window(repo, rep):
   doms = g.dominators(cfgmod.no_exc)
   for m in g.nodes:
     if m.kind == 'stmt' and m is not n and '%s.df' % data in norm(m.ast) and not isinstance(m.ast, (ast.FunctionDef,)):
+      if isinstance(m.ast, ast.Assign) and len(m.ast.targets) == 1 and isinstance(m.ast.targets[0], ast.Name):
+        t_ = m.ast.targets[0].id
+        uses_ = [x_ for x_ in ast.walk(f.node) if isinstance(x_, ast.Name) and x_.id == t_ and isinstance(x_.ctx, ast.Load)]
+        in_n_ = {id(x_) for x_ in ast.walk(n.ast)}
+        if uses_ and all(id(x_) in in_n_ for x_ in uses_):
+          continue        # a name for part of the narrowing expression itself (the indexer), used nowhere else
       rep.check(n in doms.get(m, ()), 'R3/window', 'the window is applied before `%s`' % norm(m.ast)[:50], f.qualname, norm(m.ast)[:100],
                 '`%s` reads the data table before it is narrowed to the analysis window' % norm(m.ast)[:60], f.loc(m.ast))
 
